@@ -639,6 +639,13 @@ class Interp:
             if tbl is not None:
                 # membership in a module-level literal table
                 r = const(tuple(tbl))
+            if r[0] == "dict" and all(is_const(k) for k, _ in r[1]) \
+                    and not any(loc[0] == "index" and loc[1] == r
+                                for loc in self.path.heap):
+                # membership in a local dict display that has not been
+                # stored into: one of its literal keys
+                v = any(self.equal(l, k) for k, _ in r[1])
+                return v if isinstance(op, ast.In) else not v
             if r[0] in ("tuple", "list") and all(is_const(x) for x in r[1]):
                 v = any(self.equal(l, x) for x in r[1])
             elif r[0] == "const" and isinstance(r[1], (tuple, frozenset,
@@ -826,6 +833,20 @@ class Interp:
                             break
                     else:
                         raise _Raise("builtins.KeyError", (idx,), node)
+            if isinstance(node.ctx, ast.Load) and base[0] == "dict" \
+                    and all(is_const(k) for k, _ in base[1]):
+                # a local dict display: the latest store whose key equals the
+                # index on this path, else the literal entry
+                for loc, val in reversed(list(self.path.heap.items())):
+                    if loc[0] == "index" and loc[1] == base:
+                        if loc[2] == idx or (not (is_const(loc[2])
+                                                  and is_const(idx))
+                                             and self.equal(loc[2], idx)):
+                            return val
+                for k, v in base[1]:
+                    if self.equal(idx, k):
+                        return v
+                raise _Raise("builtins.KeyError", (idx,), node)
             if isinstance(node.ctx, ast.Load):
                 try:
                     hit = self.path.heap.get(("index", base, idx))
@@ -1369,7 +1390,7 @@ class Interp:
         A store through the same base with a possibly equal key forgets the
         other entries of that base."""
         h = self.path.heap
-        for other in list(h):
+        for other in list(h) if loc[1][0] != "dict" else ():
             if other[0] == loc[0] and other[1] == loc[1] and other != loc \
                     and not (loc[0] == "index" and is_const(other[2])
                              and is_const(loc[2])) and loc[0] == "index":
